@@ -53,6 +53,7 @@ inductive Ev where
   | update (counts : List Int)
   | start (id : Nat)
   | finish (id : Nat) (t : Term)
+  | load                                   -- the manifest (and log) are (re)loaded: a new `Work`
   deriving DecidableEq, Repr
 
 /-- `StateCounts` (indexing it with `Unknown` panics in the source; `set` never does). -/
@@ -147,64 +148,78 @@ def cycleMessage (g : Graph) (stack : List Nat) (id : Nat) : String :=
   let names := (stack ++ [id]).map (fun f => stringOfBytes (g.fileName f))
   "dependency cycle: " ++ " -> ".intercalate names
 
+/-- Result of the want phase: a value and the state, or the error `anyhow::bail!` raised with
+    the state reached by then (the marking already done stays), or an abnormal outcome. -/
+inductive WR (α : Type) where
+  | ok (a : α) (s : S)
+  | err (m : String) (s : S)
+  | bad (m : String)
+
 /- `want_file` / `want_build`, with the recursion made explicit by fuel.  `stack` is oldest
    first, as the `Vec` in the source.  `wantIns` is the loop over `ordering_ins()`, `wantVals`
    the loop over `validation_ins()` (each with a fresh stack). -/
 mutual
-def wantFile (g : Graph) : Nat → S → List Nat → Nat → Res (Bool × S)
-  | 0, _, _, _ => .fuel
+def wantFile (g : Graph) : Nat → S → List Nat → Nat → WR Bool
+  | 0, _, _, _ => .bad "fuel"
   | fuel + 1, s, stack, f =>
     match stack.idxOf? f with
-    | some i => .err (cycleMessage g (stack.drop i) f)
+    | some i => .err (cycleMessage g (stack.drop i) f) s
     | none =>
       match g.producer f with
-      | none => .ok (true, s)
+      | none => .ok true s
       | some bid =>
         match wantBuild g fuel s (stack ++ [f]) bid with
-        | .ok (state, s') => .ok (state == .done, s')
-        | .err m => .err m | .panic m => .panic m | .oob => .oob | .overflow => .overflow | .fuel => .fuel
+        | .ok state s' => .ok (state == .done) s'
+        | .err m s' => .err m s'
+        | .bad m => .bad m
 
-def wantBuild (g : Graph) : Nat → S → List Nat → Nat → Res (St × S)
-  | 0, _, _, _ => .fuel
+def wantBuild (g : Graph) : Nat → S → List Nat → Nat → WR St
+  | 0, _, _, _ => .bad "fuel"
   | fuel + 1, s, stack, id =>
-    if s.st id ≠ .unknown then .ok (s.st id, s)
+    if s.st id ≠ .unknown then .ok (s.st id) s
     else
       match wantIns g fuel s stack (g.build id).ordering true with
-      | .ok (ready, s1) =>
+      | .ok ready s1 =>
         let state := if ready then St.ready else St.want
         match set g s1 id state with
         | .ok s2 =>
           match wantVals g fuel s2 (g.build id).validation with
-          | .ok s3 => .ok (state, s3)
-          | .err m => .err m | .panic m => .panic m | .oob => .oob | .overflow => .overflow | .fuel => .fuel
-        | .err m => .err m | .panic m => .panic m | .oob => .oob | .overflow => .overflow | .fuel => .fuel
-      | .err m => .err m | .panic m => .panic m | .oob => .oob | .overflow => .overflow | .fuel => .fuel
+          | .ok _ s3 => .ok state s3
+          | .err m s3 => .err m s3
+          | .bad m => .bad m
+        | .panic m => .bad m
+        | _ => .bad "set"
+      | .err m s1 => .err m s1
+      | .bad m => .bad m
 
-def wantIns (g : Graph) : Nat → S → List Nat → List Nat → Bool → Res (Bool × S)
-  | 0, _, _, _, _ => .fuel
-  | _ + 1, s, _, [], ready => .ok (ready, s)
+def wantIns (g : Graph) : Nat → S → List Nat → List Nat → Bool → WR Bool
+  | 0, _, _, _, _ => .bad "fuel"
+  | _ + 1, s, _, [], ready => .ok ready s
   | fuel + 1, s, stack, f :: fs, ready =>
     match wantFile g fuel s stack f with
-    | .ok (r, s') => wantIns g fuel s' stack fs (ready && r)
-    | .err m => .err m | .panic m => .panic m | .oob => .oob | .overflow => .overflow | .fuel => .fuel
+    | .ok r s' => wantIns g fuel s' stack fs (ready && r)
+    | .err m s' => .err m s'
+    | .bad m => .bad m
 
-def wantVals (g : Graph) : Nat → S → List Nat → Res S
-  | 0, _, _ => .fuel
-  | _ + 1, s, [] => .ok s
+def wantVals (g : Graph) : Nat → S → List Nat → WR Unit
+  | 0, _, _ => .bad "fuel"
+  | _ + 1, s, [] => .ok () s
   | fuel + 1, s, f :: fs =>
     match wantFile g fuel s [] f with
-    | .ok (_, s') => wantVals g fuel s' fs
-    | .err m => .err m | .panic m => .panic m | .oob => .oob | .overflow => .overflow | .fuel => .fuel
+    | .ok _ s' => wantVals g fuel s' fs
+    | .err m s' => .err m s'
+    | .bad m => .bad m
 end
 
 /-- Fuel that always suffices for the want phase (proved in Props/C06). -/
 def wantFuel (g : Graph) : Nat := 4 * (g.nBuilds + 1) * (g.nFiles + 1) + 4
 
 /-- `Work::want_file`. -/
-def want (g : Graph) (s : S) (f : Nat) : Res S :=
+def want (g : Graph) (s : S) (f : Nat) : WR Unit :=
   match wantFile g (wantFuel g) s [] f with
-  | .ok (_, s') => .ok s'
-  | .err m => .err m | .panic m => .panic m | .oob => .oob | .overflow => .overflow | .fuel => .fuel
+  | .ok _ s' => .ok () s'
+  | .err m s' => .err m s'
+  | .bad m => .bad m
 
 /-- `recheck_ready`. -/
 def recheckReady (g : Graph) (s : S) (id : Nat) : Bool :=
